@@ -2,6 +2,7 @@
 """keep_seed.py <seed id> <property> <src dir> <needs> <detected: yes|no|partly> <by what>"""
 import json, os, shutil, sys
 sid, prop, src, needs, detected, by = sys.argv[1:7]
+confirmed_override = sys.argv[7] if len(sys.argv) > 7 else None
 dst = os.path.join("/verif/seeded", sid)
 os.makedirs(dst, exist_ok=True)
 for f in ("patch.diff", "demo.py", "notes.md"):
@@ -15,5 +16,7 @@ meta = {"id": sid, "property": prop, "needs_to_manifest": needs,
                      "were reported by every run whatever the change; they were re-run alone with the change by tools/recheck_seed.sh and passed/skipped)",
         "check_run": "tools/try_seed.sh %s seeded/%s/patch.diff  (git apply to /repo, ./check %s --no-mutants, git checkout -- .)" % (prop, sid, prop),
         "detected": detected, "detected_by": by}
+if confirmed_override:
+    meta["confirmed"] = confirmed_override
 json.dump(meta, open(os.path.join(dst, "meta.json"), "w"), indent=1)
 print("kept", dst)
